@@ -97,6 +97,10 @@ pub fn g_string(max: usize) -> BS<String> {
         1 => vec(prop_oneof![Just('"'), Just('\\'), Just('\n'), Just('\u{7f}'), Just('é'), Just('\u{1}'), Just('a'), Just('\u{1F600}')], 0..=max)
             .prop_map(|cs| cs.into_iter().collect::<String>()),
         1 => "[ -~]{0,24}".prop_map(|s| s),
+        // control soup: every C0 control, DEL and blank, next to each other (line
+        // counting, tab expansion and byte-parallel scanning all care about pairs)
+        1 => vec(prop_oneof![4 => (0u32..0x21), 1 => Just(0x7fu32), 1 => Just(0x85u32), 1 => Just(0x2028u32), 1 => Just('a' as u32)], 0..=max)
+            .prop_map(|cs| cs.into_iter().filter_map(char::from_u32).collect::<String>()),
     ]
     .boxed()
 }
